@@ -792,12 +792,16 @@ func (r *run) opLock(id, x, lo, ty int, off, length uint64, fresh bool, o opts) 
 	} else {
 		mline = fmt.Sprintf("lockOld %s %d %d %d %d %d %d %d", tag, msid, mseq, fh, lseq, ty, off, length)
 	}
+	must := r.lockMust(s, c, lo, ty, off, length, fresh, o)
 	q.finish = func(q *request, final string) {
 		st, _ := lastResult(q.res)
 		real := fmt.Sprintf("st=%d", st)
 		mr, reached := mainResult(q, len(put))
 		q.enters = q.enters && reached
 		r.noteReply(q, reached && st == stOK)
+		if must && reached && (q.sess == nil || sequenceOK(q.res)) {
+			r.monitorLockAnswer(s, lo, ty, off, length, st)
+		}
 		if reached && r.v40() {
 			if fresh && shouldAdvance(st) && o.os >= 0 && s != nil {
 				r.ooSeq[okey] = oseq
@@ -805,7 +809,12 @@ func (r *run) opLock(id, x, lo, ty int, off, length uint64, fresh bool, o opts) 
 			// the lock-owner's seqid advances when its (nested) transaction completed;
 			// the first transaction of a new lock-owner accepts any seqid
 			_, knownLO := r.loSeq[lkey]
-			if shouldAdvance(st) && (o.ls >= 0 || (fresh && !knownLO)) && (st == stOK || st == stDenied || !fresh) {
+			// (with new_lock_owner the lock-owner's transaction starts once the open state ID, the
+			// client ID and the association are accepted: it then ends with a grant, a conflict, or
+			// the refusal of the range / type; a retransmitted open-owner seqid only repeats the cached reply)
+			_, _, rok, rempty := rfcRange(off, length)
+			refusedArgs := (st == stInval || st == stBadRange) && (!rok || rempty || ty < 1 || ty > 4) && s != nil && c == s.c
+			if shouldAdvance(st) && (o.ls >= 0 || (fresh && !knownLO)) && (st == stOK || st == stDenied || !fresh || refusedArgs) && (!fresh || o.os >= 0) {
 				r.loSeq[lkey] = lseq
 			}
 		}
@@ -961,10 +970,16 @@ func (r *run) opLockt(l, v, lo, f, ty int, off, length uint64, o opts) bool {
 				case *nfsv4.Lockt4res_NFS4_OK:
 					r.locktOK(f, c, lo, ty, off, length)
 					r.out.flags["lockt-ok"] = true
+					if o.fh == "" {
+						r.lastLockt = &locktAnswer{step: r.out.steps, c: c, lo: lo, leaf: f, ty: tyOf(ty), off: off, length: length, line: r.lastLine}
+					}
 				case *nfsv4.Lockt4res_NFS4ERR_DENIED:
 					real = fmt.Sprintf("st=%d %s", st, r.deniedStr(&res.Denied))
 					r.lockDenied(f, c, lo, ty, off, length, &res.Denied, "LOCKT")
 					r.out.flags["lockt-denied"] = true
+					if o.fh == "" {
+						r.lastLockt = &locktAnswer{step: r.out.steps, c: c, lo: lo, leaf: f, ty: tyOf(ty), off: off, length: length, denied: true, line: r.lastLine}
+					}
 				}
 			}
 		}
@@ -1051,6 +1066,9 @@ func (r *run) opIO(id int, kind string, x, f int, o opts) bool {
 		main, k, parkKind, q.ioBit = nfsx.Write(sid, 64, []byte{byte('A' + id%26)}), 1, "write", 1
 	case "s":
 		main, k, q.ioBit = setAttrSize(sid, 80), 2, 1
+		if o.fail {
+			parkKind = "setattr"
+		}
 	default:
 		return false
 	}
@@ -1067,12 +1085,30 @@ func (r *run) opIO(id int, kind string, x, f int, o opts) bool {
 		// I/O with a regular state ID goes to the state's leaf (if it is accepted at all)
 		q.ioLeaf = s.leaf
 	}
-	if o.park && parkKind != "" {
+	if (o.park && kind != "s" || o.fail) && parkKind != "" {
 		q.gate = r.w.Park(q.ioLeaf, parkKind)
+		if o.fail {
+			// fault injection: the file system reports an I/O error for this call
+			q.gate.Fail()
+			if !o.park || kind == "s" {
+				q.gate.Release()
+			}
+		}
+	}
+	fault := 0
+	if o.fail {
+		fault = 1
 	}
 	q.finish = func(q *request, final string) {
 		st, _ := lastResult(q.res)
 		_, reached := mainResult(q, len(put))
+		if o.fail && q.gate != nil && q.gate.Entered() {
+			q.ioFaulted = true
+			r.out.flags["io-fault-"+kind] = true
+			if st == stOK {
+				r.failMonitor("C18", "", "%s: the file system reported an I/O error for the call, the client was told the operation succeeded", r.lastLine)
+			}
+		}
 		q.enters = q.enters && reached
 		r.noteReply(q, reached && st == stOK && x >= 0)
 		if reached && st == stOK {
@@ -1092,7 +1128,7 @@ func (r *run) opIO(id int, kind string, x, f int, o opts) bool {
 		r.monitorIO(q, kind, st, reached)
 		r.compare(final, fmt.Sprintf("st=%d", st))
 	}
-	r.drive(q, ops, segPlan{pre: pre, body: []string{fmt.Sprintf("ioA %d %s %d %d %d %d", id, tag, msid, mseq, fh, k), fmt.Sprintf("ioB %d", id)}, parkAt: 1})
+	r.drive(q, ops, segPlan{pre: pre, body: []string{fmt.Sprintf("ioA %d %s %d %d %d %d", id, tag, msid, mseq, fh, k), fmt.Sprintf("ioB %d %d", id, fault)}, parkAt: 1})
 	return true
 }
 
